@@ -73,7 +73,11 @@ def DState.absorb (ds : DState) (st : State) : DState :=
 def dinit : DState := (DState.absorb ⟨empty, 0, 0, 0⟩ init)
 
 def counters (ds : DState) (c05 : Bool) (log : List Ev) : String :=
-  if c05 then " # u=0 dd=0 ov=0"
+  if c05 then
+    -- assignments to container-held objects and copy constructions from container-held objects during this op
+    let nas := count (fun e => match e with | .assign .. => true | _ => false) log
+    let ncp := count (fun e => match e with | .ctor _ (some .ext) => false | .ctor _ (some _) => true | _ => false) log
+    s!" # u=0 dd=0 ov=0 as={nas} cp={ncp}"
   else s!" # c={ds.c} d={ds.d} live={ds.c - ds.d} u=0 dd=0 ov=0 b={ds.b} t=0 # " ++
     (if log.isEmpty then "-" else " ".intercalate (log.map Ev.str))
 
